@@ -118,6 +118,7 @@ def gen(rng, knobs):
         m = rng.choice([2, 3, 3, 4])
         stall = {"stall_mod": m, "stall_rem": rng.choice([0, 0, rng.randrange(m)]), "stall_scale": rng.choice([0.02, 0.1])}
     return {"backend": backend, "clients": clients, "preload": pre, "p_buffered": rng.choice([0.0, 0.0, 0.3, 0.8]),
+            "storage_opts": histgen.pool_knob(rng, backend),
             "sched": {**stall, "client": rng.choice([0.3, 1.0, 3.0]), "sql": rng.choice([0.2, 1.0, 3.0]),
                       "exec": rng.choice([0.1, 1.0, 3.0]), "writer": rng.choice([0.1, 1.0, 3.0]),
                       "pool": rng.choice([0.2, 1.0, 3.0]), "wsend": rng.choice([0.2, 1.0]),
@@ -150,7 +151,8 @@ INF = 10 ** 12
 
 def run(case, sim):
     backend = case["backend"]
-    w = relay.RelayWorld(sim, backend, case["clients"], preload=case.get("preload"), p_buffered=case.get("p_buffered", 0.0))
+    w = relay.RelayWorld(sim, backend, case["clients"], preload=case.get("preload"), p_buffered=case.get("p_buffered", 0.0),
+                         storage_opts=case.get("storage_opts"))
     stored_answers = {}
 
     async def at_quiescence(world):
